@@ -38,12 +38,17 @@ def build_dataset(ctx, case, via='function', index=0, upto=('classify', 'grid'))
     if via == 'function':
         connection = data.load_case(case)
         try:
-            cl.classify_intervals(connection, case['sthr'], case['jthr'])
-            zg.populate_zeta_grid(connection, gs)
+            # the caller's numbers may be ints or numpy scalars, the connection may carry a row factory
+            if index % 5 == 4:
+                connection.row_factory = sqlite3.Row
+            cl.classify_intervals(connection, data.num_form(case['sthr'], index), data.num_form(case['jthr'], index + 1))
+            zg.populate_zeta_grid(connection, data.num_form(gs, index + 2))
             connection.commit()
         except Exception as exc:  # pylint: disable=broad-except
+            connection.row_factory = None
             connection.rollback()
             return connection, None, exc
+        connection.row_factory = None  # the walkers read plain tuples
         return connection, None, None
     paths = data.write_case_files(case, ctx.workdir, 'w{}'.format(index))
     db = os.path.join(ctx.workdir, 'w{}.sqlite3'.format(index))
@@ -61,7 +66,7 @@ def build_dataset(ctx, case, via='function', index=0, upto=('classify', 'grid'))
     return sqlite3.connect(db), db, None
 
 
-def run_curve(connection, kind, reference_mm=None, db=None, verbosity=0):
+def run_curve(connection, kind, reference_mm=None, db=None, verbosity=0, row_factory=False):
     """rise / recession with the real code; via CLI when db is given.
     verbosity 1-3: -v / -vv / -vvv with the log sent to a file (CLI); logging configured at
     DEBUG by the caller when 3 (functions).  Returns exception or None"""
@@ -78,14 +83,18 @@ def run_curve(connection, kind, reference_mm=None, db=None, verbosity=0):
         return exc
     f = rec.find_recession_offsets if kind == 'recession' else rise.find_rise_offsets
     try:
+        if row_factory:
+            connection.row_factory = sqlite3.Row
         if verbosity >= 3:
             with data.library_logging('DEBUG'):
                 f(connection, reference_mm)
         else:
             f(connection, reference_mm)
     except Exception as exc:  # pylint: disable=broad-except
+        connection.row_factory = None
         connection.rollback()
         return exc
+    connection.row_factory = None
     return None
 
 
